@@ -145,3 +145,14 @@ func VerifC06_DiscoveryAfterOtherClient() {
 	defer func() { c06Earlier = false }()
 	VerifC06_GetDevices()
 }
+
+// every operation is routed the same way: sendto is instantiated per reply type
+func VerifC06_AllOps() {
+	ops := vOps()
+	op := ops[nondetEnum("op", len(ops))]
+	d := &vDriver{err: errVerifNoReply}
+	id := nondetSerial("id")
+	u, cfg := c06Client(d, id, 3)
+	op.call(u, id)
+	c06Check(d, cfg, op.name)
+}
